@@ -1438,7 +1438,7 @@ type sll struct {
 func (op *sll) Run(ctx *Context, _ map[string]int32, pc int32, memory []int8, sequenceID int32) (Execution, error) {
 	rs1 := registerRead(ctx, op.forward, op.rs1, sequenceID)
 	rs2 := registerRead(ctx, op.forward, op.rs2, sequenceID)
-	register, value := IsRegisterChange(op.rd, rs1<<uint(rs2))
+	register, value := IsRegisterChange(op.rd, rs1<<(uint32(rs2)&31))
 	return Execution{
 		RegisterChange: true,
 		Register:       register,
@@ -1479,7 +1479,7 @@ type slli struct {
 
 func (op *slli) Run(ctx *Context, _ map[string]int32, pc int32, memory []int8, sequenceID int32) (Execution, error) {
 	rs := registerRead(ctx, op.forward, op.rs, sequenceID)
-	register, value := IsRegisterChange(op.rd, rs<<uint(op.imm))
+	register, value := IsRegisterChange(op.rd, rs<<(uint32(op.imm)&31))
 	return Execution{
 		RegisterChange: true,
 		Register:       register,
@@ -1664,7 +1664,7 @@ type sra struct {
 func (op *sra) Run(ctx *Context, _ map[string]int32, pc int32, memory []int8, sequenceID int32) (Execution, error) {
 	rs1 := registerRead(ctx, op.forward, op.rs1, sequenceID)
 	rs2 := registerRead(ctx, op.forward, op.rs2, sequenceID)
-	register, value := IsRegisterChange(op.rd, rs1>>rs2)
+	register, value := IsRegisterChange(op.rd, rs1>>(uint32(rs2)&31))
 	return Execution{
 		RegisterChange: true,
 		Register:       register,
@@ -1705,7 +1705,7 @@ type srai struct {
 
 func (op *srai) Run(ctx *Context, _ map[string]int32, pc int32, memory []int8, sequenceID int32) (Execution, error) {
 	rs := registerRead(ctx, op.forward, op.rs, sequenceID)
-	register, value := IsRegisterChange(op.rd, rs>>op.imm)
+	register, value := IsRegisterChange(op.rd, rs>>(uint32(op.imm)&31))
 	return Execution{
 		RegisterChange: true,
 		Register:       register,
@@ -1747,7 +1747,7 @@ type srl struct {
 func (op *srl) Run(ctx *Context, _ map[string]int32, pc int32, memory []int8, sequenceID int32) (Execution, error) {
 	rs1 := registerRead(ctx, op.forward, op.rs1, sequenceID)
 	rs2 := registerRead(ctx, op.forward, op.rs2, sequenceID)
-	register, value := IsRegisterChange(op.rd, rs1>>rs2)
+	register, value := IsRegisterChange(op.rd, int32(uint32(rs1)>>(uint32(rs2)&31)))
 	return Execution{
 		RegisterChange: true,
 		Register:       register,
@@ -1788,7 +1788,7 @@ type srli struct {
 
 func (op *srli) Run(ctx *Context, _ map[string]int32, pc int32, memory []int8, sequenceID int32) (Execution, error) {
 	rs := registerRead(ctx, op.forward, op.rs, sequenceID)
-	register, value := IsRegisterChange(op.rd, rs>>op.imm)
+	register, value := IsRegisterChange(op.rd, int32(uint32(rs)>>(uint32(op.imm)&31)))
 	return Execution{
 		RegisterChange: true,
 		Register:       register,
